@@ -161,6 +161,7 @@ Fixpoint enc_symbols (F C : list N) (src : list N) : option (list N * list N) :=
 
 Inductive enc_result :=
 | EncOk (bytes : list N)
+| EncInvalidInput     (* io::ErrorKind::InvalidInput: order 1 refuses inputs shorter than 4 bytes *)
 | EncPanic            (* arithmetic overflow panic (overflow-checked build) *)
 | EncDiverges.        (* state_renormalize never terminates (frequency 0 for a present symbol) *)
 
